@@ -137,6 +137,12 @@ pub async fn behaviour_server(mut server: ServerEnd) -> Vec<ReqMsg> {
                 if b == "silent" {
                 } else if let Some(l) = b.strip_prefix("late") {
                     send_later(&tx, reply("late"), l.parse().unwrap_or(500));
+                } else if b == "interm" {
+                    // a legal but unusual answer: an IntermediateResponse first, then the final response
+                    let im = Resp::Intermediate { name: Some("1.2.3.4".into()), value: Some(b"progress".to_vec()) };
+                    let mut bytes = ber::encode_min(&resp_node(id, &im, None));
+                    bytes.extend_from_slice(&reply("ok"));
+                    tx.send(&bytes);
                 } else if b == "unsol" {
                     // unsolicited notification, a response to an unknown ID, then the real answer
                     let n0 = Resp::Extended { res: Res::code(52, "NOBODY:unsolicited"), name: Some("1.3.6.1.4.1.1466.20036".into()), value: None };
@@ -157,6 +163,8 @@ pub async fn behaviour_server(mut server: ServerEnd) -> Vec<ReqMsg> {
 #[derive(Clone, Debug)]
 pub enum Step {
     Single,
+    /// single operation answered with an IntermediateResponse followed by the final response
+    SingleWithIntermediate,
     Unsolicited,
     SearchAll(usize),
     StreamFull(usize),
@@ -191,6 +199,7 @@ impl Step {
     pub fn kind(&self) -> &'static str {
         match self {
             Step::Single => "single-op",
+            Step::SingleWithIntermediate => "single-op-answered-with-an-intermediate-response-first",
             Step::Unsolicited => "single-op-with-unsolicited-responses",
             Step::SearchAll(_) => "search()-read-to-end(adapted)",
             Step::StreamFull(_) => "direct-stream-read-to-end",
@@ -226,7 +235,7 @@ pub fn gen_step(rng: &mut Rng) -> Step {
             let j = p + rng.usize(p.min(n - p) + 1);
             Step::PagedEarly(n, p as i32, j, rng.bool())
         }
-        0 => Step::Single,
+        0 => if rng.chance(1, 3) { Step::SingleWithIntermediate } else { Step::Single },
         1 => Step::Unsolicited,
         2 => Step::SearchAll(rng.usize(8)),
         3 => Step::StreamFull(rng.usize(8)),
@@ -301,8 +310,8 @@ async fn read_all(ldap: &mut Ldap, adapters: Vec<Box<dyn Adapter<'static, String
 pub async fn run_step(ldap: &mut Ldap, other: &mut Ldap, step: &Step, tok: u64, last_finished: &mut i32, ctl: &PipeCtl) -> StepObs {
     let mut obs = StepObs::default();
     match step {
-        Step::Single | Step::Unsolicited => {
-            let b = if matches!(step, Step::Unsolicited) { "unsol" } else { "normal" };
+        Step::Single | Step::Unsolicited | Step::SingleWithIntermediate => {
+            let b = if matches!(step, Step::Unsolicited) { "unsol" } else if matches!(step, Step::SingleWithIntermediate) { "interm" } else { "normal" };
             let o = invoke(ldap, &Call::Delete { dn: format!("op={},b={}", tok, b) }).await;
             *last_finished = ldap.last_id();
             obs.outcome = format!("{}:{}", o.class(), o.text().unwrap_or(""));
